@@ -633,3 +633,18 @@ def flatten_union_of_lists_of_unions(case, why):
     """F84: flattening a union whose list contents hold unions themselves leaves a union directly inside a union."""
     return (case.get("act") in ("flatten", "unflatten") and _union_inside_union(case.get("from"))
             and why.startswith("result fails validity") and "contains UnionArray" in why)
+
+
+def _option_directly_over_union(L):
+    if not isinstance(L, dict):
+        return False
+    if L.get("c") in ("IndexedOption", "ByteMasked", "BitMasked", "Unmasked") and isinstance(L.get("x"), dict) and L["x"].get("c") == "Union":
+        return True
+    return ("x" in L and _option_directly_over_union(L["x"])) or any(_option_directly_over_union(x) for x in L.get("xs", []))
+
+
+def option_over_union_unsimplified(case, why):
+    """F88: an option node directly over a UnionArray: when an operation turns the union into an option-type (or indexed)
+    array -- its contents simplify, one of them is an option -- the option wrapper is rebuilt around it unsimplified."""
+    return (_option_directly_over_union(case.get("from")) and why.startswith("result fails validity")
+            and "simplify_optiontype" in why)
